@@ -22,23 +22,24 @@ Print Assumptions C06_sync_init.
 
     Full statement demanded:
       [forall E st o, env_ok E = true -> Sync E st -> Sync E (fst (s_step E st o))].
-    Proved below: (1) for every operation except a *successful* delete / move / copy
-    ([C06_sync_step_partial] + [C06_sync_step_refused]); (2) for those three, reduced to the
+    Proved below: (1) for every operation except a *successful* move / copy (plain and into a
+    group object) ([C06_sync_step_partial] + [C06_sync_step_refused]); (2) for those, reduced to the
     file part [RawStep] -- the in-memory index part and the framing are proved
     ([C06_sync_step_given_file]); [RawStep] itself is discharged per history by the verified
     checker ([C06_checker_sound], see [C06_example_heavy]) and is what the harness evaluates
-    ([syncb]) after every model step.  Missing: the closed-form proof that the unlink /
-    relink / re-uuid folds of [c_delete], [c_move], [c_copy] re-establish [SyncRaw]. *)
+    ([syncb]) after every model step.  Missing: the closed-form proof that the relink /
+    re-uuid folds of [c_move], [c_copy] re-establish [SyncRaw] (for [c_delete] it is done). *)
 
 (** attach (incl. every refusal: read-only, reserved path, missing node, duplicate, unknown or
-    auxiliary schema, invalid value, failing export), detach, create/require group and dataset,
+    auxiliary schema, invalid value, failing export), detach, delete of datasets and of whole
+    groups (recursive destruction of the metadata below), create/require group and dataset,
     [g[p] = v], attributes, lookups, reopen, patch boundary. *)
 Theorem C06_sync_step_partial : forall E st o,
   env_ok E = true -> Sync E st -> is_heavy o = false -> Sync E (fst (s_step E st o)).
 Proof. exact sync_step_light. Qed.
 Print Assumptions C06_sync_step_partial.
 
-(** Every refused operation (any kind, incl. delete / move / copy) keeps the state in sync
+(** Every refused operation (any kind, incl. move / copy) keeps the state in sync
     and leaves the raw tree untouched. *)
 Theorem C06_sync_step_refused : forall E st o,
   env_ok E = true -> Sync E st -> refused (snd (s_step E st o)) = true ->
@@ -46,7 +47,7 @@ Theorem C06_sync_step_refused : forall E st o,
 Proof. exact sync_step_refused. Qed.
 Print Assumptions C06_sync_step_refused.
 
-(** Delete, move, copy: once the file part is in sync, the whole state is (the incrementally
+(** Move, copy: once the file part is in sync, the whole state is (the incrementally
     maintained index follows every added and removed link). *)
 Theorem C06_sync_step_given_file : forall E st co,
   env_ok E = true -> Sync E st -> is_heavy (SOp co) = true -> RawStep E st co ->
@@ -61,7 +62,7 @@ Print Assumptions C06_checker_sound.
 
 (** *** Histories *)
 
-(** Every state reached by a history is in sync; delete / move / copy steps carry the file
+(** Every state reached by a history is in sync; move / copy steps carry the file
     part as a premise ([raw_steps_ok] is [True] for all other operations). *)
 Theorem C06_all_reachable_partial : forall E ops st,
   env_ok E = true -> Sync E st -> raw_steps_ok E st ops -> Sync E (s_run E st ops).
@@ -147,7 +148,7 @@ Example C06_example :
 Proof. exact example_in_sync. Qed.
 
 (** A history with copy (with and without metadata), move, delete and reopen; the file part
-    of the four heavy kinds discharged by the verified checker. *)
+    of the move / copy steps discharged by the verified checker. *)
 Example C06_example_heavy : Sync E0 (s_run E0 init_ss ops_heavy).
 Proof. exact example_heavy_in_sync. Qed.
 
